@@ -27,8 +27,10 @@ CLAIMS = {
               "the key, an invalid line only raises a notification. (A') the one library routine the editor hands a position to, "
               "rustyline's complete_path(line, pos), is called within its slicing contract: pos is 0 or the byte offset of a character "
               "boundary of line (from char_indices().nth() or len()), at most its length - decided with character counts in the zone domain."),
-        note=("Four genuine defects found and fixed (byte slicing in the FC..FF completion; trailing input accepted: 'FC = 0x1FF' set FC "
-              "to 0; 'load ä' + Tab handed a character count to a byte-slicing completer; nom's tag_no_case executed 'quİ' as quit). "
+        note=("Five genuine defects found and fixed (byte slicing in the FC..FF completion; trailing input accepted: 'FC = 0x1FF' set FC "
+              "to 0; 'load ä' + Tab handed a character count to a byte-slicing completer; nom's tag_no_case executed 'quİ' as quit; "
+              "a time-of-check/time-of-use panic in the event loop's frame sleep). Of the event loop only the wall-clock arithmetic "
+              "is decided (no panicking operator form on Duration/Instant anywhere in the TUI module). "
               "NOT decided: that drawing never fails at every terminal size - InputWidget::render mixes byte and char "
               "offsets and subtracts from the area width; its safety depends on layout values computed inside the tui crate and on "
               "the text being ASCII; the inside of rustyline's file-name completer beyond its slicing contract; the event loop."),
